@@ -520,8 +520,24 @@ def with_helpers(ctx, fi, exclude=(), only_private=True, depth=3, inline_locals=
                 return ExprExpand(self.d - 1).visit(e)
             return c
 
+    class PropExpand(ast.NodeTransformer):
+        """self._p  ->  E   for a private property of the class whose getter is `return E`"""
+
+        def visit_Attribute(self, a):
+            self.generic_visit(a)
+            if isinstance(a.ctx, ast.Load) and isinstance(a.value, ast.Name) and a.value.id == "self" and fi.cls is not None and a.attr.startswith("_") and not a.attr.startswith("__"):
+                g = fi.cls.getters.get(a.attr)
+                if g is not None and g.node is not fi.node and a.attr not in exclude:
+                    e = _as_expression(_body_no_doc(g.node))
+                    if e is not None:
+                        e = copy.deepcopy(e)
+                        _relocate([e], a)
+                        return e
+            return a
+
     expand_stmt_list(fn.body, depth)
     fn = ExprExpand(depth).visit(fn)
+    fn = PropExpand().visit(fn)
     ast.fix_missing_locations(fn)
     out = dataclasses.replace(fi, node=inlined(fn) if inline_locals else fn)
     _keep.append(fn)
